@@ -1,0 +1,62 @@
+//go:build verif
+
+package vgirpc
+
+// Verification hooks for property C39 (access-log sampling and async
+// emission). Add-only, compiled in only under the `verif` build tag.
+
+// VerifSampler wraps the unexported accessLogSampler.
+type VerifSampler struct{ s *accessLogSampler }
+
+// VerifNewSampler exposes newAccessLogSampler.
+func VerifNewSampler(rate float64) (*VerifSampler, error) {
+	s, err := newAccessLogSampler(rate)
+	if err != nil {
+		return nil, err
+	}
+	return &VerifSampler{s: s}, nil
+}
+
+// Keep exposes accessLogSampler.keep.
+func (v *VerifSampler) Keep(record map[string]any) bool { return v.s.keep(record) }
+
+// Threshold exposes the 32-bit comparison threshold derived from the rate.
+func (v *VerifSampler) Threshold() uint32 { return v.s.threshold }
+
+// VerifAsyncEmitter wraps the unexported asyncEmitter.
+type VerifAsyncEmitter struct{ a *asyncEmitter }
+
+// VerifNewAsyncEmitter exposes newAsyncEmitter.
+func VerifNewAsyncEmitter(queueSize int, write func(map[string]any)) (*VerifAsyncEmitter, error) {
+	a, err := newAsyncEmitter(queueSize, write)
+	if err != nil {
+		return nil, err
+	}
+	return &VerifAsyncEmitter{a: a}, nil
+}
+
+// Enqueue exposes asyncEmitter.enqueue.
+func (v *VerifAsyncEmitter) Enqueue(record map[string]any) { v.a.enqueue(record) }
+
+// Close exposes asyncEmitter.close.
+func (v *VerifAsyncEmitter) Close() { v.a.close() }
+
+// QueueLen is the number of records sitting in the channel buffer.
+func (v *VerifAsyncEmitter) QueueLen() int { return len(v.a.ch) }
+
+// State reads the drop counter and the closed flag under the emitter's mutex.
+func (v *VerifAsyncEmitter) State() (dropped int64, closed bool) {
+	v.a.mu.Lock()
+	defer v.a.mu.Unlock()
+	return v.a.dropped, v.a.closed
+}
+
+// Exited reports whether the writer goroutine has returned (done is closed).
+func (v *VerifAsyncEmitter) Exited() bool {
+	select {
+	case <-v.a.done:
+		return true
+	default:
+		return false
+	}
+}
